@@ -11,6 +11,7 @@ import (
 	"log/slog"
 	"sort"
 	"strings"
+	"sync"
 	"time"
 
 	"github.com/jackc/pgx/v5/pgtype"
@@ -97,8 +98,10 @@ type Exec struct {
 	scripts map[string]M
 	nextID  int
 	served  chan error
-	// Retained: data handed to callbacks, kept for C18
-	Global wire.Parameters
+	Global  wire.Parameters
+	ctxMu   sync.Mutex
+	lastCtx map[int]context.Context // per connection: context of the command whose callback ran last
+	prevCtx map[int]context.Context // per connection: context of the command before that one
 }
 
 type ctxKeyT int
@@ -111,7 +114,8 @@ func quietLogger() *slog.Logger {
 
 // NewExec builds and starts a server for the abstract configuration.
 func NewExec(cfg M) (*Exec, error) {
-	x := &Exec{Cfg: cfg, Log: mem.NewLog(), scripts: map[string]M{}, served: make(chan error, 1)}
+	x := &Exec{Cfg: cfg, Log: mem.NewLog(), scripts: map[string]M{}, served: make(chan error, 1),
+		lastCtx: map[int]context.Context{}, prevCtx: map[int]context.Context{}}
 	x.Lis = mem.NewListener(nil)
 	x.Limit = I(cfg, "limit")
 	if _, has := cfg["limit"]; !has {
@@ -205,14 +209,34 @@ func paramsObj(p wire.Parameters) M {
 	return o
 }
 
-func ctxInfo(ctx context.Context) M {
+// withCtx adds what a callback sees through its context to the record.
+func (x *Exec) withCtx(ctx context.Context, rec M, command bool) M {
 	chain := []any{}
 	if v, ok := ctx.Value(mwKey).([]int); ok {
 		for _, i := range v {
 			chain = append(chain, i)
 		}
 	}
-	return M{"mw": chain, "cp": paramsObj(wire.ClientParameters(ctx)), "sp": paramsObj(wire.ServerParameters(ctx))}
+	rec["mw"] = chain
+	rec["cp"] = paramsObj(wire.ClientParameters(ctx))
+	rec["sp"] = paramsObj(wire.ServerParameters(ctx))
+	a, ok := wire.RemoteAddress(ctx).(mem.Addr)
+	rec["addr"] = ok && a.ID >= 1 && a.ID <= len(x.Conns)
+	rec["tm"] = wire.TypeMap(ctx) != nil
+	if command {
+		conn := x.connOf(ctx)
+		rec["live"] = ctx.Err() == nil
+		x.ctxMu.Lock()
+		prev := x.lastCtx[conn]
+		if prev != nil && prev != ctx {
+			x.prevCtx[conn] = prev
+		}
+		x.lastCtx[conn] = ctx
+		pp := x.prevCtx[conn]
+		x.ctxMu.Unlock()
+		rec["prevdone"] = pp == nil || pp.Err() != nil
+	}
+	return rec
 }
 
 func (x *Exec) validate(ctx context.Context, database, username, password string) (context.Context, bool, error) {
@@ -242,8 +266,8 @@ func (x *Exec) middleware(ctx context.Context, idx int, outcome string) (context
 	for _, i := range chain {
 		seen = append(seen, i)
 	}
-	x.cb(ctx, M{"name": "mw", "i": idx, "chain": seen,
-		"cp": paramsObj(wire.ClientParameters(ctx)), "sp": paramsObj(wire.ServerParameters(ctx))})
+	_ = seen
+	x.cb(ctx, x.withCtx(ctx, M{"name": "mw", "i": idx}, false))
 	if outcome != "ok" {
 		return ctx, errors.New("middleware failed")
 	}
@@ -252,7 +276,7 @@ func (x *Exec) middleware(ctx context.Context, idx int, outcome string) (context
 }
 
 func (x *Exec) terminate(ctx context.Context) error {
-	x.cb(ctx, M{"name": "terminate", "ctx": ctxInfo(ctx)})
+	x.cb(ctx, x.withCtx(ctx, M{"name": "terminate"}, true))
 	return nil
 }
 
@@ -296,10 +320,10 @@ func (x *Exec) parse(ctx context.Context, query string) (wire.PreparedStatements
 	}
 	q := x.scripts[key]
 	if q == nil {
-		x.cb(ctx, M{"name": "parse", "q": -1, "text": pgw.Dig([]byte(query)), "ctx": ctxInfo(ctx)})
+		x.cb(ctx, x.withCtx(ctx, M{"name": "parse", "q": -1, "text": pgw.Dig([]byte(query))}, true))
 		return nil, errors.New("harness: unknown script")
 	}
-	x.cb(ctx, M{"name": "parse", "q": I(q, "id"), "ctx": ctxInfo(ctx)})
+	x.cb(ctx, x.withCtx(ctx, M{"name": "parse", "q": I(q, "id")}, true))
 	if S(q, "parse") == "err" {
 		return nil, BuildErr(Sub(q, "perr"))
 	}
@@ -386,7 +410,7 @@ func (x *Exec) runStmt(ctx context.Context, w wire.DataWriter, params []wire.Par
 		}
 		ps = append(ps, rec)
 	}
-	x.cb(ctx, M{"name": "stmt.start", "def": I(st, "id"), "si": si, "params": ps, "ctx": ctxInfo(ctx)})
+	x.cb(ctx, x.withCtx(ctx, M{"name": "stmt.start", "def": I(st, "id"), "si": si, "params": ps}, true))
 	var cr *wire.CopyReader
 	for _, ov := range L(st, "prog") {
 		op := AsM(ov)
